@@ -565,8 +565,15 @@ def run_program(prog, work):
                 ents.append(build_entity(e, ents))
         except ex.EdgeCreationError as e:
             raise Discard("edge projected to more than two geometries: %s" % e)
-        for g in prog["geometry"]:
-            mesh.add_geometry(dict(g))
+        for gi, g in enumerate(prog["geometry"]):
+            gd = dict(g)
+            if gi == 0 and life_of(prog) != 1:
+                # the user's dictionary has been handed to ANOTHER mesh before, which then declared more geometry: a mesh
+                # writes what was declared for it, and the user's dictionary stays what the user made it
+                other = cb.Mesh()
+                other.add_geometry(gd)
+                other.add_geometry({"zz_other_mesh": ["type searchablePlane", "planeType pointAndNormal", "point (9 9 9)", "normal (0 0 1)"]})
+            mesh.add_geometry(gd)
         for (n, k, st) in prog["modify_pre"]:
             mesh.modify_patch(n, k, None if st is None else list(st))
         for (m, s) in prog["merged"]:
